@@ -311,5 +311,4 @@ def run(ctx, rep):
 
 
 def replay(ctx, rp):
-    print("replay case:", rp["first"]["case"])
-    return False
+    return None      # generic replay of harness/main.py (re-executes the check, looks for the recorded signature)
